@@ -135,6 +135,11 @@ def one_round_trip(tf, tfl, reg, cls, overrides, rng, save_formats=()):
     if kind.startswith("layer"):
       probe = _probe(tf, cls, kwargs, rng)
       obj(probe)
+      # arbitrary weights instead of the initial ones (initial kernels are often flat or symmetric, which hides
+      # differences in everything that only shapes the function: keypoints, clipping, routing)
+      ws = obj.get_weights()
+      obj.set_weights([(rng.integers(-32, 33, size=w.shape) / 16.0).astype(w.dtype) if w.dtype.kind == "f" else w for w in ws])
+      obj(probe)
     elif kind == "fn":
       probe = tf.constant((rng.integers(-32, 33, size=shape) / 16.0).astype(np.float32))
       obj(probe)
